@@ -830,6 +830,38 @@ pub fn build_db(db: &Db) -> SparqlDatabase {
             }
         }
     }
+    // The dataset also has a history: quads that were stored and deleted again (reversed and re-predicated variants of some
+    // stored quads, in graphs that exist anyway).  Whatever is answered afterwards depends on the stored quads only.
+    let finals: std::collections::HashSet<(String, String, String, Option<String>)> = db.quads.iter().cloned().collect();
+    let mut transient: Vec<(String, String, String, Option<String>)> = Vec::new();
+    for (i, (s, p, o, g)) in db.quads.iter().enumerate() {
+        let h = crate::proto::fnv(&format!("{} {} {} {}", s, p, o, i));
+        let t = match h % 5 {
+            0 => (o.clone(), p.clone(), s.clone(), g.clone()),
+            1 => {
+                let (_, p2, _, _) = &db.quads[(i + 1) % db.quads.len()];
+                (s.clone(), p2.clone(), o.clone(), g.clone())
+            }
+            _ => continue,
+        };
+        if !finals.contains(&t) && !transient.contains(&t) {
+            transient.push(t);
+        }
+    }
+    let quad_of = |d: &SparqlDatabase, t: &(String, String, String, Option<String>)| shared::dataset_index::Quad {
+        subject: enc(d, &t.0),
+        predicate: enc(d, &t.1),
+        object: enc(d, &t.2),
+        graph: gid(d, &t.3),
+    };
+    for t in &transient {
+        let q = quad_of(&d, t);
+        d.dataset_index.insert_quad(&q);
+    }
+    for t in &transient {
+        let q = quad_of(&d, t);
+        d.dataset_index.delete_quad(&q);
+    }
     d
 }
 pub fn enc(d: &SparqlDatabase, v: &str) -> u32 {
@@ -1003,11 +1035,20 @@ pub fn universe(rng: &mut Rng) -> Universe {
             preds.push("relp".into());
         }
     }
+    let graphs: Vec<String> = (0..ng).map(|i| format!("urn:g{}", i)).collect();
+    if rng.chance(1, 4) {
+        // graph names also occur as ordinary terms (a graph described in the default graph): a variable bound by a triple
+        // pattern or VALUES can then name a graph, stored or not, visible to the query or not
+        iris.push(rng.pick(&graphs).clone());
+        if rng.chance(1, 2) {
+            iris.push("urn:g2".into());
+        }
+    }
     Universe {
         iris,
         preds,
         lits,
-        graphs: (0..ng).map(|i| format!("urn:g{}", i)).collect(),
+        graphs,
         seeds: Vec::new(),
     }
 }
